@@ -30,6 +30,14 @@ Statement level (S)
                                                   comprehension: e is assumed free of side effects that S could observe
   a = b                    -> uses of a read b    both bound once (or b an unmodified parameter), copy at function top level
 Helpers that the reference does not have (a block moved into a new private function) are inlined at statement level first.
+  if c: x = a else: x = b  -> x = a if c else b
+  if T: continue; REST     -> if not T: REST      (loop bodies)
+  xs = []; for t in it: [if c:] xs.append(e)      -> xs = [e for t in it if c]
+  t = <pure expr over stable names>; ... t ...    -> the expression itself (also for module-level NAME = <pure expr>, e.g. a compiled pattern);
+                                                     pure = no calls but side-effect-free builtins, str / array query methods, np.*, re.*;
+                                                     stable = never re-bound, assigned through, or receiver of a mutating call in the function
+NumPy spellings: dtype given as string or type; np.zeros(n, 'i4'); 1-tuple shapes; np.full(shape, int) ; np.bitwise_and / a & b;
+  np.sum(x, axis=k) / x.sum(k); x.transpose() / x.T; np.degrees / np.rad2deg.  Message arguments of raise / warn / log calls are ignored.
 Then locals are numbered in order of first binding (alpha-renaming), and finally (E2) the operands of `*`, `&`, `|`,
 `==`, `!=` and the keywords of every call are sorted (commutative on numbers and arrays; keyword evaluation order assumed
 unobservable).
@@ -47,12 +55,56 @@ SCOPES = (ast.FunctionDef, ast.AsyncFunctionDef, ast.ClassDef, ast.Lambda)
 TERMINAL = (ast.Return, ast.Raise, ast.Continue, ast.Break)
 
 
+NP_ALIASES = {'degrees': 'rad2deg', 'radians': 'deg2rad', 'absolute': 'abs', 'float_': 'float64', 'bool8': 'bool_', 'concatenate': 'concatenate'}
+DTYPE_NAMES = {'d': 'float64', 'f8': 'float64', 'float64': 'float64', 'double': 'float64', 'float': 'float64',
+               'f': 'float32', 'f4': 'float32', 'float32': 'float32',
+               'i4': 'int32', 'int32': 'int32', 'i8': 'int64', 'int64': 'int64', 'i2': 'int16', 'int16': 'int16',
+               'u8': 'uint64', 'uint64': 'uint64', 'u4': 'uint32', 'uint32': 'uint32', 'u2': 'uint16', 'uint16': 'uint16',
+               'bool': 'bool_', '?': 'bool_', 'bool_': 'bool_', 'b1': 'bool_'}
+
+
+def _dtype_canon(e):
+    """'d' / 'f8' / np.float64 / float -> np.float64 and so on (the same dtype object in every spelling)."""
+    name = None
+    if isinstance(e, ast.Constant) and isinstance(e.value, str):
+        name = DTYPE_NAMES.get(e.value.lstrip('<=|'))
+    elif isinstance(e, ast.Name) and e.id in ('float', 'bool'):
+        name = DTYPE_NAMES[e.id]
+    elif isinstance(e, ast.Attribute) and isinstance(e.value, ast.Name) and e.value.id in ('np', 'numpy') and e.attr in DTYPE_NAMES:
+        name = DTYPE_NAMES[e.attr]
+    if name is None:
+        return e
+    return ast.copy_location(ast.Attribute(value=ast.Name(id='np', ctx=ast.Load()), attr=name, ctx=ast.Load()), e)
+
+
 class _E1(ast.NodeTransformer):
     def __init__(self, callee_info):
         self.callee_info = callee_info
 
     def visit_Compare(self, n):
         self.generic_visit(n)
+        # len(x) is a non-negative integer: len(x) > 0, 0 < len(x), len(x) >= 1  ==  len(x) != 0 ;  len(x) < 1, len(x) <= 0  ==  len(x) == 0
+        if len(n.ops) == 1:
+            a, b, op = n.left, n.comparators[0], n.ops[0]
+
+            def is_len(e):
+                return isinstance(e, ast.Call) and isinstance(e.func, ast.Name) and e.func.id == 'len' and len(e.args) == 1
+
+            def const(e):
+                return e.value if isinstance(e, ast.Constant) and type(e.value) is int else None
+            if is_len(b) and const(a) is not None:
+                a, b = b, a
+                op = {ast.Lt: ast.Gt, ast.Gt: ast.Lt, ast.LtE: ast.GtE, ast.GtE: ast.LtE}.get(type(op), type(op))()
+            if is_len(a) and const(b) is not None:
+                k = const(b)
+                new = None
+                if (isinstance(op, ast.Gt) and k == 0) or (isinstance(op, ast.GtE) and k == 1) or (isinstance(op, ast.NotEq) and k == 0):
+                    new = ast.NotEq()
+                elif (isinstance(op, ast.Lt) and k == 1) or (isinstance(op, ast.LtE) and k == 0) or (isinstance(op, ast.Eq) and k == 0):
+                    new = ast.Eq()
+                if new is not None:
+                    n.left, n.comparators, n.ops = a, [ast.Constant(value=0)], [new]
+                    return n
         if len(n.ops) == 1 and type(n.ops[0]) in MIRROR:
             n.left, n.comparators[0] = n.comparators[0], n.left
             n.ops = [MIRROR[type(n.ops[0])]()]
@@ -80,8 +132,22 @@ class _E1(ast.NodeTransformer):
 
     def visit_keyword(self, n):
         self.generic_visit(n)
-        if n.arg == 'dtype' and isinstance(n.value, ast.Constant) and n.value.value in DTYPES:
-            n.value = ast.Attribute(value=ast.Name(id='np', ctx=ast.Load()), attr=DTYPES[n.value.value], ctx=ast.Load())
+        if n.arg == 'dtype':
+            n.value = _dtype_canon(n.value)
+        return n
+
+    def visit_Attribute(self, n):
+        self.generic_visit(n)
+        if isinstance(n.value, ast.Name) and n.value.id in ('np', 'numpy') and n.attr in NP_ALIASES:
+            n.attr = NP_ALIASES[n.attr]
+        return n
+
+    def visit_Raise(self, n):
+        self.generic_visit(n)
+        # the text of a message is not behaviour any property speaks about
+        if isinstance(n.exc, ast.Call):
+            n.exc.args = []
+            n.exc.keywords = []
         return n
 
     def visit_Slice(self, n):
@@ -103,6 +169,71 @@ class _E1(ast.NodeTransformer):
     def visit_Call(self, n):
         info = self.callee_info(n) if self.callee_info is not None else None
         self.generic_visit(n)
+        f = n.func
+        # messages of warnings and log records
+        if (isinstance(f, ast.Name) and f.id in ('warn',)) or (isinstance(f, ast.Attribute) and (
+                (f.attr in ('debug', 'info', 'warning', 'error', 'critical', 'exception') and isinstance(f.value, ast.Name) and f.value.id in ('log', 'logger', 'logging'))
+                or (f.attr == 'warn' and isinstance(f.value, ast.Name) and f.value.id == 'warnings'))):
+            n.args = n.args[1:] if n.args else []
+            n.args = [a for a in n.args]
+            return n
+        # isinstance(x, (T,)) == isinstance(x, T)
+        if isinstance(f, ast.Name) and f.id == 'isinstance' and len(n.args) == 2 and isinstance(n.args[1], ast.Tuple) and len(n.args[1].elts) == 1:
+            n.args[1] = n.args[1].elts[0]
+        if isinstance(f, ast.Attribute) and isinstance(f.value, ast.Name) and f.value.id in ('np', 'numpy'):
+            # np.zeros(shape, 'i4') == np.zeros(shape, dtype='i4')
+            if f.attr in ('zeros', 'ones', 'empty') and len(n.args) == 2 and not any(k.arg == 'dtype' for k in n.keywords):
+                n.keywords = [ast.keyword(arg='dtype', value=_dtype_canon(n.args[1]))] + n.keywords
+                n.args = n.args[:1]
+            # scalar shape == 1-tuple shape
+            if f.attr in ('zeros', 'ones', 'empty', 'full') and n.args and isinstance(n.args[0], ast.Tuple) and len(n.args[0].elts) == 1:
+                n.args[0] = n.args[0].elts[0]
+            # np.full(shape, v, dtype=D) == np.zeros(shape, dtype=D) + v   for an integer literal v, or a floating D
+            if f.attr == 'full' and len(n.args) >= 2:
+                dt = [k.value for k in n.keywords if k.arg == 'dtype'] or (n.args[2:3])
+                v = n.args[1]
+                vi = isinstance(v, ast.Constant) and type(v.value) is int or (isinstance(v, ast.UnaryOp) and isinstance(v.operand, ast.Constant) and type(v.operand.value) is int)
+                if dt and (vi or (isinstance(dt[0], ast.Attribute) and dt[0].attr.startswith('float'))):
+                    z = ast.Call(func=ast.Attribute(value=ast.Name(id='np', ctx=ast.Load()), attr='zeros', ctx=ast.Load()), args=[n.args[0]],
+                                 keywords=[ast.keyword(arg='dtype', value=_dtype_canon(dt[0]))])
+                    return ast.copy_location(ast.BinOp(left=z, op=ast.Add(), right=v), n)
+            # operator forms
+            if f.attr in ('bitwise_and', 'bitwise_or', 'bitwise_xor', 'not_equal', 'equal', 'logical_not') and not n.keywords:
+                if f.attr == 'logical_not' and len(n.args) == 1:
+                    pass
+                elif len(n.args) == 2:
+                    if f.attr in ('not_equal', 'equal'):
+                        return ast.copy_location(ast.Compare(left=n.args[0], ops=[ast.NotEq() if f.attr == 'not_equal' else ast.Eq()], comparators=[n.args[1]]), n)
+                    op = {'bitwise_and': ast.BitAnd, 'bitwise_or': ast.BitOr, 'bitwise_xor': ast.BitXor}[f.attr]()
+                    return ast.copy_location(ast.BinOp(left=n.args[0], op=op, right=n.args[1]), n)
+            # function form of array methods: np.sum(x, axis=k) == x.sum(k), np.transpose(x) == x.T, np.argsort(x) == x.argsort()
+            if f.attr in ('sum', 'mean', 'min', 'max', 'any', 'all', 'argsort', 'cumsum', 'nonzero') and n.args:
+                recv = n.args[0]
+                n = ast.copy_location(ast.Call(func=ast.Attribute(value=recv, attr=f.attr, ctx=ast.Load()), args=n.args[1:], keywords=n.keywords), n)
+                f = n.func
+            elif f.attr == 'transpose' and len(n.args) == 1 and not n.keywords:
+                return ast.copy_location(ast.Attribute(value=n.args[0], attr='T', ctx=ast.Load()), n)
+        # re.compile(P).sub(r, s) == re.sub(P, r, s)   (no flags)
+        if isinstance(f, ast.Attribute) and f.attr in ('sub', 'subn', 'findall', 'finditer', 'split', 'search', 'match', 'fullmatch') \
+                and isinstance(f.value, ast.Call) and isinstance(f.value.func, ast.Attribute) and f.value.func.attr == 'compile' \
+                and isinstance(f.value.func.value, ast.Name) and f.value.func.value.id == 're' and len(f.value.args) == 1 and not f.value.keywords:
+            n = ast.copy_location(ast.Call(func=ast.Attribute(value=ast.Name(id='re', ctx=ast.Load()), attr=f.attr, ctx=ast.Load()),
+                                           args=[f.value.args[0]] + n.args, keywords=n.keywords), n)
+            f = n.func
+        # re.split(P, s, maxsplit=1) == re.split(P, s, 1)
+        if isinstance(f, ast.Attribute) and isinstance(f.value, ast.Name) and f.value.id == 're' and f.attr == 'split' and len(n.args) == 2 \
+                and len(n.keywords) == 1 and n.keywords[0].arg == 'maxsplit':
+            n.args.append(n.keywords[0].value)
+            n.keywords = []
+        # x.transpose() == x.T ; x.sum(axis=k) == x.sum(k)
+        if isinstance(f, ast.Attribute) and f.attr == 'transpose' and not n.args and not n.keywords:
+            return ast.copy_location(ast.Attribute(value=f.value, attr='T', ctx=ast.Load()), n)
+        if isinstance(f, ast.Attribute) and f.attr in ('sum', 'mean', 'min', 'max', 'any', 'all', 'cumsum', 'argsort') and not n.args \
+                and len(n.keywords) == 1 and n.keywords[0].arg == 'axis':
+            n.args = [n.keywords[0].value]
+            n.keywords = []
+        if isinstance(f, ast.Attribute) and f.attr == 'astype' and len(n.args) == 1:
+            n.args[0] = _dtype_canon(n.args[0])
         if isinstance(n.func, ast.Name) and n.func.id == 'range' and len(n.args) == 2 and not n.keywords \
                 and isinstance(n.args[0], ast.Constant) and type(n.args[0].value) is int and n.args[0].value == 0:
             n.args = n.args[1:]
@@ -639,7 +770,485 @@ def inline_new_helpers(fn, resolve, is_new, depth=2):
         return out, changed
     c = clone(fn)
     c.body, ch = process(c.body, depth)
+    # helpers that are one expression (possibly after normalisation) are inlined wherever they are called
+    hit = [False]
+
+    class X(ast.NodeTransformer):
+        def visit_Call(self, n):
+            self.generic_visit(n)
+            g = resolve(n)
+            if g is None or not is_new(g) or getattr(g, '_bound_self', None) is not None and False:
+                return n
+            a = g.args
+            if a.vararg or a.kwarg or a.kwonlyargs or a.posonlyargs or g.decorator_list:
+                return n
+            for x in ast.walk(g):
+                if x is not g and isinstance(x, SCOPES + (ast.Global, ast.Nonlocal, ast.Yield, ast.YieldFrom)):
+                    return n
+            expr = helper_expression(g)
+            if expr is None:
+                return n
+            params = [x.arg for x in a.args]
+            pos = list(n.args)
+            if getattr(g, '_bound_self', None) is not None:
+                pos = [g._bound_self] + pos
+            if any(isinstance(x, ast.Starred) for x in pos) or any(k.arg is None for k in n.keywords) or len(pos) > len(params):
+                return n
+            binding = dict(zip(params, pos))
+            for k in n.keywords:
+                if k.arg not in params or k.arg in binding:
+                    return n
+                binding[k.arg] = k.value
+            defaults = dict(zip(params[len(params) - len(a.defaults):], a.defaults))
+            for p_ in params:
+                if p_ not in binding:
+                    if p_ not in defaults:
+                        return n
+                    binding[p_] = defaults[p_]
+            # an argument that is evaluated more than once (or not at all) must be pure
+            counts = {p_: sum(1 for x in ast.walk(expr) if isinstance(x, ast.Name) and x.id == p_) for p_ in params}
+            if any(counts[p_] != 1 and not _pure_expr(binding[p_]) for p_ in params):
+                return n
+            rebound = {x.id for x in ast.walk(expr) if isinstance(x, ast.Name) and isinstance(x.ctx, ast.Store)}
+            if rebound & set(params):
+                return n
+
+            class S(ast.NodeTransformer):
+                def visit_Name(self, m):
+                    if m.id in binding and isinstance(m.ctx, ast.Load):
+                        return clone(binding[m.id])
+                    return m
+            hit[0] = True
+            return ast.copy_location(S().visit(clone(expr)), n)
+    c2 = X().visit(c if ch else clone(fn))
+    if hit[0]:
+        ast.fix_missing_locations(c2)
+        return c2
     return c if ch else fn
+
+
+PURE_BUILTINS = {'len', 'int', 'float', 'str', 'abs', 'min', 'max', 'sum', 'all', 'any', 'tuple', 'isinstance', 'range', 'bool', 'round',
+                 'sorted', 'frozenset', 'repr', 'ord', 'chr', 'divmod', 'pow', 'enumerate', 'zip', 'type', 'hasattr', 'getattr', 'slice'}
+PURE_METHODS = {'upper', 'lower', 'strip', 'lstrip', 'rstrip', 'startswith', 'endswith', 'find', 'rfind', 'count', 'index', 'get', 'keys',
+                'values', 'items', 'nonzero', 'sum', 'min', 'max', 'mean', 'any', 'all', 'astype', 'ravel', 'reshape', 'transpose', 'tolist',
+                'argsort', 'argmin', 'argmax', 'cumsum', 'search', 'match', 'fullmatch', 'findall', 'split', 'join', 'format', 'replace',
+                'groups', 'group', 'isdigit', 'isspace', 'to', 'decode', 'encode', 'var', 'std', 'dot', 'flatten', 'squeeze', 'title'}
+IMPURE_NP = {'put', 'copyto', 'place', 'putmask', 'fill_diagonal', 'save', 'savetxt', 'load', 'loadtxt', 'seterr', 'random'}
+MUTATING = {'append', 'extend', 'insert', 'pop', 'remove', 'clear', 'update', 'sort', 'reverse', 'setdefault', 'popitem', 'add', 'discard',
+            'fill', 'resize', 'put', 'itemset', 'byteswap', 'partition', 'write', 'close', 'seek'}
+
+
+def _pure_expr(e):
+    """Built from names, constants, attribute reads, subscripts, arithmetic, comparisons and calls that neither have side effects
+    nor depend on anything but their arguments."""
+    for n in ast.walk(e):
+        if isinstance(n, (ast.Await, ast.Yield, ast.YieldFrom, ast.NamedExpr, ast.Lambda, ast.Starred)):
+            return False
+        if isinstance(n, ast.Call):
+            f = n.func
+            if isinstance(f, ast.Name):
+                if f.id not in PURE_BUILTINS:
+                    return False
+            elif isinstance(f, ast.Attribute):
+                base = f.value
+                while isinstance(base, ast.Attribute):
+                    base = base.value
+                if isinstance(base, ast.Name) and base.id in ('np', 'numpy'):
+                    if f.attr in IMPURE_NP or (isinstance(f.value, ast.Attribute) and f.value.attr == 'random'):
+                        return False
+                elif isinstance(base, ast.Name) and base.id == 're':
+                    if f.attr not in ('compile', 'search', 'match', 'fullmatch', 'findall', 'split', 'sub', 'escape'):
+                        return False
+                elif f.attr not in PURE_METHODS:
+                    return False
+            else:
+                return False
+    return True
+
+
+def _mutated_names(fn):
+    """Names that are re-bound more than once, deleted, assigned through (x[i] = .., x.a = ..), augmented, or receive a mutating call."""
+    stores = {}
+    mut = set()
+    for n in ast.walk(fn):
+        if isinstance(n, ast.Name) and isinstance(n.ctx, ast.Store):
+            stores[n.id] = stores.get(n.id, 0) + 1
+        elif isinstance(n, ast.Name) and isinstance(n.ctx, ast.Del):
+            mut.add(n.id)
+        elif isinstance(n, (ast.Global, ast.Nonlocal)):
+            mut |= set(n.names)
+        elif isinstance(n, ast.AugAssign):
+            b = n.target
+            while isinstance(b, (ast.Subscript, ast.Attribute)):
+                b = b.value
+            if isinstance(b, ast.Name):
+                mut.add(b.id)
+        elif isinstance(n, (ast.Subscript, ast.Attribute)) and isinstance(n.ctx, (ast.Store, ast.Del)):
+            b = n.value
+            while isinstance(b, (ast.Subscript, ast.Attribute)):
+                b = b.value
+            if isinstance(b, ast.Name):
+                mut.add(b.id)
+        elif isinstance(n, ast.Call) and isinstance(n.func, ast.Attribute) and n.func.attr in MUTATING:
+            b = n.func.value
+            while isinstance(b, (ast.Subscript, ast.Attribute)):
+                b = b.value
+            if isinstance(b, ast.Name):
+                mut.add(b.id)
+    for k, c in stores.items():
+        if c > 1:
+            mut.add(k)
+    return mut, stores
+
+
+def _forward_subst(fn, module_exprs=None):
+    """A local bound exactly once to a pure expression over stable names reads as that expression; so does a module-level NAME bound
+    once to a pure expression (a compiled pattern, a tuple of names, a number).  'Stable' = never re-bound, never assigned through,
+    never the receiver of a mutating call, anywhere in the function."""
+    params = {a.arg for a in fn.args.posonlyargs + fn.args.args + fn.args.kwonlyargs}
+    if fn.args.vararg:
+        params.add(fn.args.vararg.arg)
+    if fn.args.kwarg:
+        params.add(fn.args.kwarg.arg)
+    mut, stores = _mutated_names(fn)
+    # targets of for / with / comprehension / except are bound by a statement that is not a plain assignment: leave them alone
+    special = set()
+    for n in ast.walk(fn):
+        if isinstance(n, (ast.For, ast.AsyncFor, ast.comprehension)):
+            special |= {x.id for x in ast.walk(n.target) if isinstance(x, ast.Name)}
+        elif isinstance(n, (ast.With, ast.AsyncWith)):
+            for it in n.items:
+                if it.optional_vars is not None:
+                    special |= {x.id for x in ast.walk(it.optional_vars) if isinstance(x, ast.Name)}
+        elif isinstance(n, ast.ExceptHandler) and n.name:
+            special.add(n.name)
+        elif isinstance(n, (ast.Import, ast.ImportFrom)):
+            for a in n.names:
+                special.add((a.asname or a.name).split('.')[0])
+    defs = {}
+    for n in ast.walk(fn):
+        if isinstance(n, ast.Assign) and len(n.targets) == 1 and isinstance(n.targets[0], ast.Name):
+            nm = n.targets[0].id
+            if nm in params or nm in mut or nm in special or stores.get(nm) != 1:
+                continue
+            if not _pure_expr(n.value):
+                continue
+            free = {x.id for x in ast.walk(n.value) if isinstance(x, ast.Name)}
+            if nm in free:
+                continue
+            # operands must be stable; loop/with targets are allowed only when the definition is nested in the construct that binds them
+            if any((x in mut) for x in free):
+                continue
+            defs[nm] = n
+    # Evaluation must not move across effects: between the definition and the first evaluation of a use (on every path) there may
+    # only be effect-free statements.  Later re-evaluations of a pure expression over stable operands give the same value and cannot
+    # newly raise.
+    def uses(node, nm):
+        return any(isinstance(x, ast.Name) and x.id == nm and isinstance(x.ctx, ast.Load) for x in ast.walk(node))
+
+    def effect_free(st):
+        if isinstance(st, ast.Pass):
+            return True
+        if isinstance(st, (ast.Assign, ast.AnnAssign, ast.AugAssign)):
+            tg = st.targets if isinstance(st, ast.Assign) else [st.target]
+            flat = []
+            for t in tg:
+                flat.extend(t.elts if isinstance(t, (ast.Tuple, ast.List)) else [t])
+            return all(isinstance(t, ast.Name) for t in flat) and (st.value is None or _pure_expr(st.value))
+        if isinstance(st, ast.Expr):
+            return _pure_expr(st.value)
+        if isinstance(st, ast.If):
+            return _pure_expr(st.test) and all(effect_free(x) for x in st.body + st.orelse)
+        if isinstance(st, (ast.For, ast.While)):
+            hdr = st.iter if isinstance(st, ast.For) else st.test
+            return _pure_expr(hdr) and all(effect_free(x) for x in st.body + st.orelse)
+        return False
+
+    def scan(stmts, nm):
+        for st in stmts:
+            if isinstance(st, ast.If):
+                if uses(st.test, nm):
+                    return 'used'
+                if not _pure_expr(st.test):
+                    return 'bad' if any(uses(x, nm) for x in stmts[stmts.index(st):]) else 'clean'
+                r1, r2 = scan(st.body, nm), scan(st.orelse, nm)
+                if 'bad' in (r1, r2):
+                    return 'bad'
+                if r1 == 'used' and r2 == 'used':
+                    return 'used'
+                continue
+            if isinstance(st, (ast.For, ast.While)):
+                hdr = st.iter if isinstance(st, ast.For) else st.test
+                if uses(hdr, nm):
+                    return 'used'
+                if not _pure_expr(hdr):
+                    return 'bad' if any(uses(x, nm) for x in stmts[stmts.index(st):]) else 'clean'
+                if scan(st.body, nm) == 'bad' or scan(st.orelse, nm) == 'bad':
+                    return 'bad'
+                continue
+            if uses(st, nm):
+                return 'used' if not isinstance(st, (ast.Try, ast.With)) or True else 'bad'
+            if not effect_free(st):
+                later = stmts[stmts.index(st) + 1:]
+                return 'bad' if any(uses(x, nm) for x in later) else 'clean'
+        return 'clean'
+
+    def block_of(st):
+        for owner in ast.walk(fn):
+            for fld in ('body', 'orelse', 'finalbody'):
+                v = getattr(owner, fld, None)
+                if isinstance(v, list) and any(x is st for x in v):
+                    return owner, v
+            for h in getattr(owner, 'handlers', []) or []:
+                if any(x is st for x in h.body):
+                    return h, h.body
+        return None, None
+    for nm in list(defs):
+        st = defs[nm]
+        owner, blk = block_of(st)
+        if blk is None:
+            del defs[nm]
+            continue
+        i = next(k for k, x in enumerate(blk) if x is st)
+        rest = blk[i + 1:]
+        total = sum(1 for x in ast.walk(fn) if isinstance(x, ast.Name) and x.id == nm and isinstance(x.ctx, ast.Load))
+        inside = sum(1 for r in rest for x in ast.walk(r) if isinstance(x, ast.Name) and x.id == nm and isinstance(x.ctx, ast.Load))
+        if inside != total or scan(rest, nm) == 'bad':
+            # a use after the enclosing block ended (loop / branch), or an effect between definition and first use
+            if not (owner is fn and inside == total and scan(rest, nm) != 'bad'):
+                del defs[nm]
+    mapping = {}
+    for nm, st in defs.items():
+        mapping[nm] = st.value
+    for nm, e in (module_exprs or {}).items():
+        if nm not in stores and nm not in params and nm not in mapping:
+            mapping[nm] = e
+    if not mapping:
+        return False
+    # loop variables among the operands: the temp may only be used inside the loop that binds them
+    changed = [False]
+
+    def resolve(e, depth=0):
+        class R(ast.NodeTransformer):
+            def visit_Name(self, n):
+                if isinstance(n.ctx, ast.Load) and n.id in mapping and depth < 12:
+                    changed[0] = True
+                    return resolve(clone(mapping[n.id]), depth + 1)
+                return n
+        return R().visit(e)
+
+    class T(ast.NodeTransformer):
+        def visit_Name(self, n):
+            if isinstance(n.ctx, ast.Load) and n.id in mapping:
+                changed[0] = True
+                return ast.copy_location(resolve(clone(mapping[n.id])), n)
+            return n
+    drop = {id(st) for st in defs.values()}
+    for n in ast.walk(fn):
+        for fld in ('body', 'orelse', 'finalbody'):
+            v = getattr(n, fld, None)
+            if isinstance(v, list) and v and isinstance(v[0], ast.stmt) and not isinstance(n, ast.Lambda):
+                kept = [st for st in v if id(st) not in drop]
+                if len(kept) != len(v):
+                    setattr(n, fld, kept or [ast.Pass()])
+    T().visit(fn)
+    return changed[0]
+
+
+def _ifexp_assign(fn):
+    """if c: x = a else: x = b   ->   x = a if c else b   (same single plain target in both branches)."""
+    changed = False
+    for owner in ast.walk(fn):
+        for fld in ('body', 'orelse', 'finalbody'):
+            body = getattr(owner, fld, None)
+            if not (isinstance(body, list) and body and isinstance(body[0], ast.stmt)) or isinstance(owner, ast.Lambda):
+                continue
+            for i, st in enumerate(body):
+                if isinstance(st, ast.If) and len(st.body) == 1 and len(st.orelse) == 1 and isinstance(st.body[0], ast.Assign) \
+                        and isinstance(st.orelse[0], ast.Assign) and len(st.body[0].targets) == 1 and len(st.orelse[0].targets) == 1 \
+                        and isinstance(st.body[0].targets[0], ast.Name) and ast.dump(st.body[0].targets[0]) == ast.dump(st.orelse[0].targets[0]):
+                    body[i] = ast.copy_location(ast.Assign(targets=[st.body[0].targets[0]],
+                                                           value=ast.IfExp(test=st.test, body=st.body[0].value, orelse=st.orelse[0].value)), st)
+                    changed = True
+    return changed
+
+
+def _guard_continue(fn):
+    """In a loop body:  if T: continue; REST   ->   if not T: REST."""
+    changed = False
+    for loop in ast.walk(fn):
+        if not isinstance(loop, (ast.For, ast.While, ast.AsyncFor)):
+            continue
+
+        def rewrite(body):
+            nonlocal changed
+            for i, st in enumerate(body):
+                if isinstance(st, ast.If) and not st.orelse and len(st.body) == 1 and isinstance(st.body[0], ast.Continue) and i + 1 < len(body):
+                    rest = body[i + 1:]
+                    rewrite(rest)
+                    st.test = _negate(st.test)
+                    st.body = rest
+                    del body[i + 1:]
+                    changed = True
+                    return
+        rewrite(loop.body)
+    return changed
+
+
+def _list_accumulation(fn):
+    """x = [] (or list(), or a list literal); x.append(e) immediately after   ->   x = [..., e]   (e must not read x)."""
+    changed = False
+    for owner in ast.walk(fn):
+        for fld in ('body', 'orelse', 'finalbody'):
+            body = getattr(owner, fld, None)
+            if not (isinstance(body, list) and body and isinstance(body[0], ast.stmt)) or isinstance(owner, ast.Lambda):
+                continue
+            i = 0
+            while i + 1 < len(body):
+                a, b = body[i], body[i + 1]
+                if isinstance(a, ast.Assign) and len(a.targets) == 1 and isinstance(a.targets[0], ast.Name):
+                    if isinstance(a.value, ast.Call) and isinstance(a.value.func, ast.Name) and a.value.func.id == 'list' and not a.value.args and not a.value.keywords:
+                        a.value = ast.copy_location(ast.List(elts=[], ctx=ast.Load()), a.value)
+                        changed = True
+                    nm = a.targets[0].id
+                    if isinstance(a.value, ast.List) and isinstance(b, ast.Expr) and isinstance(b.value, ast.Call) and isinstance(b.value.func, ast.Attribute) \
+                            and b.value.func.attr == 'append' and isinstance(b.value.func.value, ast.Name) and b.value.func.value.id == nm \
+                            and len(b.value.args) == 1 and not b.value.keywords \
+                            and nm not in {x.id for x in ast.walk(b.value.args[0]) if isinstance(x, ast.Name)} and _pure_expr(b.value.args[0]):
+                        a.value.elts.append(b.value.args[0])
+                        del body[i + 1]
+                        changed = True
+                        continue
+                i += 1
+    return changed
+
+
+def _tail_returns(fn):
+    """A bare `return` as the last statement of the function body is dropped; at the top level of the function body
+    `if T: ...; return` (bare) followed by REST reads as `if T: ... else: REST` (falling off the end is a bare return)."""
+    changed = False
+    body = fn.body
+    while len(body) > 1 and isinstance(body[-1], ast.Return) and (body[-1].value is None or (isinstance(body[-1].value, ast.Constant) and body[-1].value.value is None)):
+        body.pop()
+        changed = True
+
+    def has_value_return(stmts):
+        return any(isinstance(x, ast.Return) and x.value is not None and not (isinstance(x.value, ast.Constant) and x.value.value is None)
+                   for st in stmts for x in ast.walk(st))
+    if has_value_return(body):
+        return changed            # a function that returns values: `return` and falling off the end are still the same, but keep it simple
+    i = 0
+    while i < len(body):
+        st = body[i]
+        if isinstance(st, ast.If) and not st.orelse and st.body and isinstance(st.body[-1], ast.Return) and i + 1 < len(body):
+            st.body = st.body[:-1] or [ast.Pass()]
+            st.orelse = body[i + 1:]
+            del body[i + 1:]
+            _tail_in_branches(st)
+            changed = True
+            break
+        i += 1
+    return changed
+
+
+def _tail_in_branches(iff):
+    for blk in (iff.body, iff.orelse):
+        while len(blk) > 1 and isinstance(blk[-1], ast.Return) and blk[-1].value is None:
+            blk.pop()
+        j = 0
+        while j < len(blk):
+            st = blk[j]
+            if isinstance(st, ast.If) and not st.orelse and st.body and isinstance(st.body[-1], ast.Return) and st.body[-1].value is None and j + 1 < len(blk):
+                st.body = st.body[:-1] or [ast.Pass()]
+                st.orelse = blk[j + 1:]
+                del blk[j + 1:]
+                _tail_in_branches(st)
+                break
+            j += 1
+
+
+def _return_ifexp(fn):
+    """if c: return a else: return b   /   if c: return a; return b      ->   return a if c else b   (values, not bare returns)."""
+    changed = False
+    for owner in ast.walk(fn):
+        for fld in ('body', 'orelse', 'finalbody'):
+            body = getattr(owner, fld, None)
+            if not (isinstance(body, list) and body and isinstance(body[0], ast.stmt)) or isinstance(owner, ast.Lambda):
+                continue
+            i = 0
+            while i < len(body):
+                st = body[i]
+                if isinstance(st, ast.If) and len(st.body) == 1 and isinstance(st.body[0], ast.Return) and st.body[0].value is not None:
+                    other = None
+                    if len(st.orelse) == 1 and isinstance(st.orelse[0], ast.Return) and st.orelse[0].value is not None:
+                        other = st.orelse[0].value
+                        consumed = 0
+                    elif not st.orelse and i + 1 < len(body) and isinstance(body[i + 1], ast.Return) and body[i + 1].value is not None:
+                        other = body[i + 1].value
+                        consumed = 1
+                    if other is not None:
+                        body[i] = ast.copy_location(ast.Return(value=ast.IfExp(test=st.test, body=st.body[0].value, orelse=other)), st)
+                        if consumed:
+                            del body[i + 1]
+                        changed = True
+                        continue
+                i += 1
+    return changed
+
+
+def helper_expression(g):
+    """If the helper reduces to `return <expr>` after the statement-level normalisations, that expression (else None)."""
+    c = clone(g)
+    body = c.body
+    if body and isinstance(body[0], ast.Expr) and isinstance(body[0].value, ast.Constant) and isinstance(body[0].value.value, str):
+        c.body = body[1:] or [ast.Pass()]
+    for _ in range(6):
+        before = ast.dump(c)
+        while _stmt_pass(c):
+            pass
+        _ifexp_assign(c)
+        while _inline_pass(c):
+            pass
+        _return_ifexp(c)
+        if ast.dump(c) == before:
+            break
+    if len(c.body) == 1 and isinstance(c.body[0], ast.Return) and c.body[0].value is not None:
+        return c.body[0].value
+    return None
+
+
+def _loop_to_comprehension(fn):
+    """xs = []; for t in it: [if c:] xs.append(e)   ->   xs = [e for t in it if c]."""
+    changed = False
+    for owner in ast.walk(fn):
+        for fld in ('body', 'orelse', 'finalbody'):
+            body = getattr(owner, fld, None)
+            if not (isinstance(body, list) and body and isinstance(body[0], ast.stmt)) or isinstance(owner, ast.Lambda):
+                continue
+            i = 0
+            while i + 1 < len(body):
+                a, b = body[i], body[i + 1]
+                empty = isinstance(a, ast.Assign) and len(a.targets) == 1 and isinstance(a.targets[0], ast.Name) and (
+                    (isinstance(a.value, ast.List) and not a.value.elts) or
+                    (isinstance(a.value, ast.Call) and isinstance(a.value.func, ast.Name) and a.value.func.id == 'list' and not a.value.args))
+                if empty and isinstance(b, ast.For) and not b.orelse and len(b.body) == 1:
+                    nm = a.targets[0].id
+                    inner = b.body[0]
+                    cond = None
+                    if isinstance(inner, ast.If) and not inner.orelse and len(inner.body) == 1:
+                        cond = inner.test
+                        inner = inner.body[0]
+                    if isinstance(inner, ast.Expr) and isinstance(inner.value, ast.Call) and isinstance(inner.value.func, ast.Attribute) \
+                            and inner.value.func.attr == 'append' and isinstance(inner.value.func.value, ast.Name) and inner.value.func.value.id == nm \
+                            and len(inner.value.args) == 1 and nm not in {x.id for x in ast.walk(inner.value.args[0]) if isinstance(x, ast.Name)} \
+                            and nm not in {x.id for x in ast.walk(b.iter) if isinstance(x, ast.Name)}:
+                        comp = ast.ListComp(elt=inner.value.args[0], generators=[ast.comprehension(target=b.target, iter=b.iter, ifs=[cond] if cond is not None else [], is_async=0)])
+                        body[i] = ast.copy_location(ast.Assign(targets=[a.targets[0]], value=comp), a)
+                        del body[i + 1]
+                        changed = True
+                        continue
+                i += 1
+    return changed
 
 
 def normal_form(fn, callee_info=None, consts=None):
@@ -661,6 +1270,13 @@ def normal_form(fn, callee_info=None, consts=None):
         while _inline_pass(c):
             pass
         _copy_prop(c)
+        _tail_returns(c)
+        _return_ifexp(c)
+        _list_accumulation(c)
+        _ifexp_assign(c)
+        _guard_continue(c)
+        _loop_to_comprehension(c)
+        _forward_subst(c, getattr(consts, 'exprs', None))
         if ast.dump(c) == before:
             break
     _alpha(c)
